@@ -405,7 +405,7 @@ def generate(rng, tier, index):
         plan["types"].append({"name": "box", "implements": None,
                               "extends": None})
     # component packages
-    npk = rng.choice([0, 1, 1, 2, 2])
+    npk = rng.choice([0, 1, 1, 2, 2, 3])
     comp_types = []
     for k in range(npk):
         pname = "zcsim_p%d" % k
@@ -488,10 +488,20 @@ def generate(rng, tier, index):
     # one ConfigLoader object for the whole history (it keeps its extended
     # schema between loads by design, so only "model accepts => accepted,
     # same slots" is judged there)
+    # how the generated packages are NAMED: any name the import system
+    # accepts and that provides a component is a component package
+    scheme = rng.choice(["plain", "plain", "plain", "non-ascii", "hyphen"])
     plan["reuse_loader"] = rng.random() < 0.25 \
         and "zcsim_ptw" not in plan["components"]
     # (with the twin package a loader that keeps an earlier load's import
     # legitimately refuses the other twin as a redefinition)
+    if scheme != "plain":
+        text = json.dumps(plan)
+        for old_ in ("zcsim_p0", "zcsim_p1", "zcsim_p2", "zcsim_ptw"):
+            new_ = old_.replace("zcsim_p", "zcsim_p\u00e9" if scheme ==
+                                "non-ascii" else "zcsim-p")
+            text = text.replace(old_, json.dumps(new_)[1:-1])
+        plan = json.loads(text)
     return plan
 
 
@@ -590,7 +600,15 @@ def _gen_steps(rng, plan, pkgs, all_types, ctype, names, depth=0):
         else:
             steps.append(_gen_header(rng, plan, ctype, all_types, names,
                                      used))
-    if pkgs and depth == 0 and rng.random() < 0.6:
+    if len(pkgs) >= 2 and depth == 0 and rng.random() < 0.15:
+        # a run of imports: every package once (in some order), then one of
+        # them -- or a component the schema itself imports -- again
+        order = list(pkgs)
+        rng.shuffle(order)
+        again = rng.choice(order[:2] + list(plan.get("schema_imports") or ()))
+        for pkg in reversed(order + [again]):
+            steps.insert(0, {"op": "import", "pkg": pkg})
+    elif pkgs and depth == 0 and rng.random() < 0.6:
         # import what the text uses up front (otherwise: use before import)
         for pkg in pkgs:
             if rng.random() < 0.8:
